@@ -19,7 +19,7 @@ RULES = collections.Counter()
 # spec / ghost text is 128-bit specification arithmetic: its own overflow checks are switched off
 # (listed as an assumption: magnitudes stay below 2^100 for int64 inputs); checks in the extracted
 # code are untouched.
-SPEC_PUSH = '#ifdef VERIF_CBMC /* ghost */\n#pragma CPROVER check push\n#pragma CPROVER check disable "signed-overflow"\n#pragma CPROVER check disable "conversion"\n'
+SPEC_PUSH = '#ifdef VERIF_CBMC /* ghost */\n#pragma CPROVER check push\n#pragma CPROVER check disable "signed-overflow"\n#pragma CPROVER check disable "conversion"\n#pragma CPROVER check disable "pointer"\n#pragma CPROVER check disable "pointer-primitive"\n#pragma CPROVER check disable "pointer-overflow"\n#pragma CPROVER check disable "bounds"\n'
 SPEC_POP = '#pragma CPROVER check pop\n#endif\n'
 
 
